@@ -169,7 +169,10 @@ CLAIMED.update({
         "choice; that pieces skipped by the `copied` shortcut already have their file copied; that the model of Metadata.extract / _parse_tree "
         "(Model/RebuildMeta.v, over the decoded metafile) lists exactly the files of the metafile at name :: path, in order; and that the model of the v2 "
         "route _match_v2 copies an entry iff some same-name candidate has the recorded length and the recorded BEP 52 root (first such candidate), "
-        "entries being independent.  PARTIAL: completeness of the whole v1 run needs candidates_clean (known finding D27).  Known findings D27, D28 are "
+        "entries being independent; WHOLE RUN on the abstract filesystem (Model/RebuildRun.v: matcher, then the copypath calls in order, a raising call "
+        "ending the command): with a candidate of the recorded length and root for every entry the v2 rebuild leaves every file of the torrent at its "
+        "assigned place (C13_v2_complete_on_fs), the v1 rebuild does under candidates_clean (C13_v1_complete_partial), every counted copy is present, "
+        "and a batch is one run of the concatenated traces.  PARTIAL: completeness of the whole v1 run needs candidates_clean (known finding D27).  Known findings D27, D28 are "
         "reported as KNOWN-FINDING.",
         RBTB, "DESIGN.md section 5 C13"),
     "C14": (
@@ -179,7 +182,11 @@ CLAIMED.update({
         "source untouched, never alters the source, is idempotent, and that a v1 rebuild calls copypath only with same-name same-size candidates of a "
         "choice whose bytes hash to the recorded digest, never on a failed search; that the v2 route copies only candidates of the recorded length whose "
         "BEP 52 root equals the recorded root, to the path the metafile assigns, inside the destination; and (instance on the call graph regenerated from "
-        "the package) that everything reachable from the rebuild command has only Read, Mkdir and Copy effects.  Tie: copypath on real small filesystems "
+        "the package) that everything reachable from the rebuild command has only Read, Mkdir and Copy effects; WHOLE RUN (Model/RebuildRun.v): every "
+        "path a v1 / v2 / batch rebuild changes is the assigned place of a listed entry now holding the bytes of a verified same-name candidate of the "
+        "recorded length (over nothing or a strictly shorter file) or a new directory on the way to one; candidates and everything outside the "
+        "destination keep their bytes when the destination is disjoint from the search directories; a destination file of at least the recorded length "
+        "is never altered; a second identical rebuild changes nothing.  Tie: copypath on real small filesystems "
         "vs the extracted model (state of every path), match_v1 / match_v2 call sequences, Metadata(...) vs the extracted extract model; search: full snapshots of search roots, metafiles and pre-populated destinations, repeated rebuilds.",
         RBTB + " sys.addaudithook reports every mutation Python code performs (cross-checked against snapshots each run).", "DESIGN.md section 5 C14"),
     "C16": (
